@@ -13,9 +13,11 @@ import (
 	"runtime"
 	"strings"
 	"sync"
+	"sync/atomic"
 	"testing"
 	"time"
 
+	abcicli "github.com/tendermint/tendermint/abci/client"
 	abci "github.com/tendermint/tendermint/abci/types"
 	"github.com/tendermint/tendermint/config"
 	"github.com/tendermint/tendermint/libs/log"
@@ -49,9 +51,20 @@ type app struct {
 	newN    int
 	reN     int
 	unknown int
+	// latency per CheckTx call, cycled (async_test.go): 0 = none, 1 = yield, n > 1 = n microseconds
+	pattern []int
+	calls   int64
 }
 
 func (a *app) CheckTx(req abci.RequestCheckTx) abci.ResponseCheckTx {
+	if len(a.pattern) > 0 {
+		switch p := a.pattern[int(atomic.AddInt64(&a.calls, 1))%len(a.pattern)]; {
+		case p == 1:
+			runtime.Gosched()
+		case p > 1:
+			time.Sleep(time.Duration(p) * time.Microsecond)
+		}
+	}
 	a.mu.Lock()
 	defer a.mu.Unlock()
 	i, ok := a.alpha[string(req.Tx)]
@@ -120,6 +133,11 @@ func newSUT(c conf, a abci.Application, pre mempool.PreCheckFunc, post mempool.P
 	if err := cli.Start(); err != nil {
 		return nil, err
 	}
+	return newSUTOn(c, cli, pre, post), nil
+}
+
+// newSUTOn builds the mempool on an already started ABCI client (local, or socket: async_test.go).
+func newSUTOn(c conf, cli abcicli.Client, pre mempool.PreCheckFunc, post mempool.PostCheckFunc) *sut {
 	conn := proxy.NewAppConnMempool(cli)
 	cfg := mempoolConfig(c)
 	s := &sut{stop: func() { _ = cli.Stop() }}
@@ -145,7 +163,7 @@ func newSUT(c conf, a abci.Application, pre mempool.PreCheckFunc, post mempool.P
 		s.mp, s.has = mp, mp.VerifC12CacheHas
 		s.list = func() ([]types.Tx, []time.Time) { return mp.VerifC12ListTxs(), nil }
 	}
-	return s, nil
+	return s
 }
 
 // ---- filters, built the way the node builds them (state.TxPreCheck / TxPostCheck) or directly ----
